@@ -658,6 +658,22 @@ void vk_run_case(vk::Choice& c) {
     }
   }
   bool fault = e.fault_fired || !injected.empty();
+  {
+    std::string dg = vk::sfmt("root=%d:%ld:%ld@%d seen=%s", e.root_chan, e.root_val, e.root_err, e.root_signals, seq_str(e.seen).c_str());
+    std::vector<std::pair<long, std::string>> evs;
+    for (int i = 0; i < 3; ++i) if (e.src[i].used) {
+      dg += vk::sfmt(" src%d{next=%d cleanup=%d/%d delivered=%zu}", i, e.src[i].next_started, e.src[i].cleanup_started, e.src[i].cleanup_completed, e.src[i].delivered.size());
+      for (size_t n = 0; n < e.src[i].nexts.size(); ++n) { auto& nr = e.src[i].nexts[n]; evs.push_back({nr.t_start, vk::sfmt("s%d.%zu%s", i, n, nr.stopped_at_start ? "!" : "")}); if (nr.t_complete >= 0) evs.push_back({nr.t_complete, vk::sfmt("c%d.%zu=%d", i, n, nr.chan)}); if (nr.t_stop_seen >= 0) evs.push_back({nr.t_stop_seen, vk::sfmt("x%d.%zu", i, n)}); }
+      if (e.src[i].t_cleanup_start >= 0) evs.push_back({e.src[i].t_cleanup_start, vk::sfmt("cs%d", i)});
+      if (e.src[i].t_cleanup_done >= 0) evs.push_back({e.src[i].t_cleanup_done, vk::sfmt("cd%d", i)});
+    }
+    for (size_t k = 0; k < e.t_seen.size(); ++k) evs.push_back({e.t_seen[k], vk::sfmt("e%zu", k)});
+    if (e.t_root >= 0) evs.push_back({e.t_root, "ROOT"});
+    if (e.t_stop_begin >= 0) evs.push_back({e.t_stop_begin, "STOP"});
+    std::sort(evs.begin(), evs.end());
+    dg += " | order"; for (auto& x : evs) { dg += ' '; dg += x.second; }
+    cx.digest = dg;
+  }
   delete runner;
   if (!e.live_ops.empty() && !cx.failed) SR_FAIL(P, "op_leaked", "%zu operation state(s) of the harness sources were never destroyed although the consumer and the stream have been destroyed [%s]", e.live_ops.size(), d.text.c_str());
   cx.nontrivial = driver_steps >= 2 && (stop_inflight || trigger_inflight || fault || (limit >= 0 && early) || deferred_cleanup_fired);
